@@ -109,7 +109,13 @@ def seeded(ids: list[str], tier: str = "quick") -> int:
             nviol = sum(1 for ln in out.splitlines() if ln.startswith("VIOLATION "))
             first = next((ln for ln in out.splitlines() if ln.startswith("  key=")), "")
             print(f"{sid} {meta['property']}: exit={rc} violations={nviol} wall={wall:.1f}s {first[:150]}")
-            if rc != 1 or not nviol:
+            want = meta.get("expected_exit", 1)
+            if want == 0:
+                noted = any(ln.startswith("NOTE: recorded-not-judged") for ln in out.splitlines())
+                print(f"  (by design not judged: expected exit 0; recorded in evidence: {noted})")
+                if rc != 0 or not noted:
+                    bad += 1
+            elif rc != 1 or not nviol:
                 bad += 1
                 print("  NOT CAUGHT; tail of output:\n    " + "\n    ".join(out.splitlines()[-6:]))
             sys.stdout.flush()
